@@ -4,6 +4,7 @@ package main
 // Each is a who-may / provenance rule over resolved call sites with a frozen table confirmed by reading the reference tree.
 
 import (
+	"fmt"
 	"go/constant"
 	"go/types"
 	"sort"
@@ -40,6 +41,11 @@ func cClosers(p *Program, r *Report, rule string) {
 		for _, owner := range p.ownersOf(cs.Fn) {
 			n++
 			reason, ok := allowed[owner]
+			for want, why := range allowed {
+				if !ok && p.ownerIs(owner, want) {
+					reason, ok = why, true
+				}
+			}
 			r.Check(rule, owner, cs.Kind+" "+cs.Name, p.InstrPos(cs.Instr), ok,
 				"the connection is torn down only where the read side failed, a close frame was received, the connection was closed explicitly or the context of a blocked call ended; a teardown elsewhere (for instance on a failed write) makes reads fail before messages that were already received in full are delivered",
 				firstNonEmpty(reason, "teardown in "+owner+" is not on the frozen list"))
@@ -71,7 +77,7 @@ func cPoolClients(p *Program, r *Report, rule string) {
 			n++
 			good := false
 			for _, a := range allowed {
-				if owner == a {
+				if p.ownerIs(owner, a) {
 					good = true
 				}
 			}
@@ -83,10 +89,12 @@ func cPoolClients(p *Program, r *Report, rule string) {
 	if n < 7 {
 		r.Undecide("%s: only %d pool client sites found (expected at least 7)", rule, n)
 	}
-	// the pools themselves: package-level variables whose type contains sync.Pool
-	known := map[string]bool{"flateReaderPool": true, "flateWriterPool": true, "swPool": true, "bufioReaderPool": true, "bufioWriterPool": true, "bpool.bpool": true}
+	// the pools themselves: package-level variables whose type contains sync.Pool. In the main package they are known by
+	// name (renames resolved); the helper package internal/bpool has exactly one, whatever it is called.
+	known := map[string]bool{"flateReaderPool": true, "flateWriterPool": true, "swPool": true, "bufioReaderPool": true, "bufioWriterPool": true}
+	otherWant := map[string]int{"bpool": 1}
+	otherGot := map[string][]string{}
 	var names []string
-	seen := 0
 	for _, pkg := range p.SSAPkgs {
 		if pkg == nil {
 			continue
@@ -104,17 +112,32 @@ func cPoolClients(p *Program, r *Report, rule string) {
 				name = a
 			}
 			if pkg.Pkg.Name() != "websocket" {
-				name = pkg.Pkg.Name() + "." + name
+				otherGot[pkg.Pkg.Name()] = append(otherGot[pkg.Pkg.Name()], name)
+				continue
 			}
 			names = append(names, name)
 		}
 	}
 	sort.Strings(names)
+	seen := 0
+	const what = "the process-wide pools are flateReaderPool, flateWriterPool, swPool, bufioReaderPool, bufioWriterPool and the one pool of internal/bpool: every pool needs its own reset-on-Get / no-alias-after-Put / no-escape discipline"
 	for _, name := range names {
 		seen++
-		r.Check(rule, "package", "pool "+name, "-", known[name],
-			"the process-wide pools are flateReaderPool, flateWriterPool, swPool, bufioReaderPool, bufioWriterPool and bpool: every pool needs its own reset-on-Get / no-alias-after-Put / no-escape discipline",
-			"pool "+name+" is not covered by the isolation rules")
+		r.Check(rule, "package", "pool "+name, "-", known[name], what, "pool "+name+" is not covered by the isolation rules")
+	}
+	var pkgs []string
+	for k := range otherGot {
+		pkgs = append(pkgs, k)
+	}
+	for k := range otherWant {
+		if _, ok := otherGot[k]; !ok {
+			pkgs = append(pkgs, k)
+		}
+	}
+	sort.Strings(pkgs)
+	for _, k := range pkgs {
+		seen += len(otherGot[k])
+		r.Check(rule, "package "+k, "pools of package "+k, "-", len(otherGot[k]) == otherWant[k], what, fmt.Sprintf("package %s has %d pool variable(s) %v, expected %d", k, len(otherGot[k]), otherGot[k], otherWant[k]))
 	}
 	if seen < 6 {
 		r.Undecide("%s: only %d pools found (expected 6)", rule, seen)
@@ -167,7 +190,7 @@ func cTooBigSites(p *Program, r *Report, rule string) {
 		}
 		for _, owner := range p.ownersOf(cs.Fn) {
 			n++
-			r.Check(rule, owner, cs.Name+"(StatusMessageTooBig)", p.InstrPos(cs.Instr), owner == "limitReader.Read",
+			r.Check(rule, owner, cs.Name+"(StatusMessageTooBig)", p.InstrPos(cs.Instr), p.ownerIs(owner, "limitReader.Read"),
 				"StatusMessageTooBig (1009) is decided only by limitReader.Read, which counts the bytes handed to the caller after decompression; a message of at most the limit is never rejected because of a declared or compressed length",
 				"1009 sent from "+owner)
 		}
@@ -209,4 +232,25 @@ func cFramePayload(p *Program, r *Report, rule string) {
 			return true, ""
 		})
 	}
+}
+
+// ownerIs: a site attributed to owner counts for the reference function want when owner is want, or when want was inlined
+// into its only caller and owner is that caller.
+func (p *Program) ownerIs(owner, want string) bool {
+	if owner == want {
+		return true
+	}
+	f := p.FuncOpt(want)
+	if f != nil && p.absorbed[want] == f && p.rawName(f) == owner {
+		return true
+	}
+	// want is gone altogether (inlined into several callers): its sites now belong to the functions that called it
+	if f == nil && knownFuncs[want] {
+		for _, c := range knownCallers[want] {
+			if c == owner {
+				return true
+			}
+		}
+	}
+	return false
 }
